@@ -26,7 +26,13 @@ RULE = ("documents: a catalogue of ~60 shapes (anchored / aliased scalars, seque
         "must resolve to exactly the node the model reported it for (object identity for containers / anchored scalars, "
         "parent object + reference for plain scalars).  A sample goes through yaml_paths.main() on a dumped file (stdout vs "
         "the model's de-duplicated list on the reloaded document); get_search_term is compared on every expression of length "
-        "<= 3 over 13 characters.  distinct & non-trivial = distinct (document, term, options) cases with a non-empty result.")
+        "<= 3 over 13 characters.  Multi-document streams: 2-3 documents (the same document repeated, catalogue shapes, "
+        "random documents) dumped into one file and searched by one yaml_paths.main() run; the lines printed for document N "
+        "must be the model's de-duplicated list for document N.  Expressions with backslash escapes: operator {=,^,$,%} "
+        "(plain / inverted) + a term of words and the symbols space [ ] ' \" backslash, each symbol written as backslash + "
+        "symbol; over a document holding the term text, the text without the symbols, the written form and prefixed / "
+        "suffixed variants, judged by Python's ==, startswith, endswith, in: exactly the satisfying values are reported, once, "
+        "each path resolving to its value (both notations, a quarter also through main()).  distinct & non-trivial = distinct (document, term, options) cases with a non-empty result.")
 
 N_RANDOM_DOCS = {"quick": 2600, "thorough": 40000}
 PER_DOC = {"quick": 40, "thorough": 60}
@@ -123,21 +129,24 @@ def random_term(rng):
 # --------------------------------------------------------------------------- one chunk of work
 
 def _classify_reresolve(addr, model_doc, fslash):
-    """Which known hazard of the path notation (if any) lies on the way to this address."""
+    """Which known hazard of the path notation (if any) lies on the way to this address.  ALL hazards on the way
+    are collected; one that is still an open finding explains the failure before one that has been repaired
+    in the tree (leading slash e9c869e, integer set member bbb6262): `/a[1].''` fails for its empty key."""
     node = model_doc
     first = True
+    found = []
     for (t, x) in addr:
         if node["k"] == "map" and t == "k":
             ents = node["e"] + node.get("me", [])
             sib = [e[0] for e in ents]
             if sum(1 for s in sib if str(s) == str(x)) > 1:
-                return "int-str-key-clash"
+                found.append("int-str-key-clash")
             if not sg.wf_key_text(x):
-                return "inexpressible-key"
+                found.append("inexpressible-key")
             if isinstance(x, str) and "\\\\" in x:
-                return "adjacent-backslashes-key"
+                found.append("adjacent-backslashes-key")
             if first and not fslash and isinstance(x, str) and x.startswith("/"):
-                return "dot-path-leading-slash"
+                found.append("dot-path-leading-slash")
             nxt = [e[1] for e in ents if type(e[0]) is type(x) and e[0] == x]
             node = nxt[0] if nxt else {"k": "null"}
         elif node["k"] == "seq" and t == "i":
@@ -145,23 +154,29 @@ def _classify_reresolve(addr, model_doc, fslash):
         elif node["k"] == "set" and t == "m":
             ms = [m[0] if isinstance(m, list) else m for m in node["m"]]
             if sum(1 for s in ms if str(s) == str(x)) > 1:
-                return "int-str-key-clash"
+                found.append("int-str-key-clash")
             if isinstance(x, int):
-                return "int-set-member"
+                found.append("int-set-member")
             if not sg.wf_key_text(x):
-                return "inexpressible-key"
+                found.append("inexpressible-key")
             if isinstance(x, str) and "\\\\" in x:
-                return "adjacent-backslashes-key"
+                found.append("adjacent-backslashes-key")
             if first and not fslash and isinstance(x, str) and x.startswith("/"):
-                return "dot-path-leading-slash"
+                found.append("dot-path-leading-slash")
             node = {"k": "null"}
         elif node["k"] == "map" and t == "r":
             names = node.get("merge_anchors", [])
-            return "merge-ref-not-resolved" if x < len(names) else None
+            if x < len(names):
+                found.append("merge-ref-not-resolved")
+            break
         else:
             node = {"k": "null"}
         first = False
-    return None
+    repaired = ("dot-path-leading-slash", "int-set-member")
+    for h in found:
+        if h not in repaired:
+            return h
+    return found[0] if found else None
 
 
 def opt_sig(o):
@@ -436,6 +451,266 @@ def main_chunk(job):
     return stats, viol[:20], disag[:20]
 
 
+# --------------------------------------------------------------------------- multi-document streams through main()
+
+def multi_chunk(job):
+    """job: [([source doc, ...2-3 of them], term, opts)] — all documents dumped into ONE file (`---` between them), one
+    yaml_paths.main() run; the lines printed for document N (prefix `<file>/N: `) must be exactly the model's
+    de-duplicated result list on document N as reloaded: results are per document, whatever the other documents of
+    the stream printed."""
+    from yamlpath.commands import yaml_paths as yp
+    from yamlpath.common import Parsers
+    drv = core.Driver()
+    stats = {"n": 0, "skipped": 0, "nonempty": 0, "docs": 0, "shared": 0}
+    viol, disag = [], []
+    with tempfile.TemporaryDirectory(prefix="ypv-c07-") as td:
+        prepared = []
+        for n, (srcs, term, opts) in enumerate(job):
+            if term["m"] == "REGEX" and "/" in term["term"]:
+                stats["skipped"] += 1
+                continue
+            fn = os.path.join(td, "m%d.yaml" % n)
+            try:
+                with open(fn, "w", encoding="utf-8") as fh:
+                    for src in srcs:
+                        Parsers.get_yaml_editor().dump(sg.build(src), fh)
+                with contextlib.redirect_stderr(io.StringIO()), contextlib.redirect_stdout(io.StringIO()):
+                    loaded = list(Parsers.get_yaml_multidoc_data(Parsers.get_yaml_editor(), core.quiet_logger(), fn))
+                if len(loaded) != len(srcs) or not all(ok for _d, ok in loaded):
+                    stats["skipped"] += 1
+                    continue
+                mjs = [sg.to_model_json(d, sg.real_all_anchors(d)) for d, _ok in loaded]
+            except Exception:
+                stats["skipped"] += 1     # a stream ruamel cannot dump / reload as built (not the tool's matter)
+                continue
+            expr = ("!" if term["inv"] else "") + sg.OPS[term["m"]] + (
+                term["term"] if term["m"] != "REGEX" else "/" + term["term"] + "/")
+            prepared.append({"srcs": srcs, "term": term, "opts": opts, "fn": fn, "mjs": mjs, "expr": expr})
+        tms = drv.ask([{"op": "C07.term", "x": p_["expr"]} for p_ in prepared])
+        prepared = [dict(p_, tm=tm) for p_, tm in zip(prepared, tms)]
+        stats["skipped"] += sum(1 for p_ in prepared if "m" not in p_["tm"])
+        prepared = [p_ for p_ in prepared if "m" in p_["tm"]]
+        reqs, owner = [], []
+        rxreq = [(pi, di) for pi, p_ in enumerate(prepared) if p_["tm"]["m"] == "REGEX" for di in range(len(p_["mjs"]))]
+        rxtexts = {}
+        for (pi, di), ans in zip(rxreq, drv.ask([{"op": "C07.texts", "doc": prepared[pi]["mjs"][di]} for pi, di in rxreq])):
+            rxtexts[(pi, di)] = ans["texts"]
+        for pi, p_ in enumerate(prepared):
+            for di, mj in enumerate(p_["mjs"]):
+                r = {"op": "C07.search", "doc": mj, "term": {"inv": p_["tm"]["inv"], "m": p_["tm"]["m"], "term": p_["tm"]["term"]},
+                     "opts": {k: p_["opts"][k] for k in ("sv", "sk", "sa", "ika", "iva", "expand", "fslash")}}
+                if (pi, di) in rxtexts:
+                    r["rx"] = [[p_["tm"]["term"], tx, cc.rx_answer(p_["tm"]["term"], tx)] for tx in rxtexts[(pi, di)]]
+                reqs.append(r)
+                owner.append(pi)
+        answers = {}
+        for pi, mo in zip(owner, drv.ask(reqs)):
+            answers.setdefault(pi, []).append(mo)
+        for pi, p_ in enumerate(prepared):
+            opts, mos = p_["opts"], answers[pi]
+            case = {"docs": p_["srcs"], "term": p_["term"], "opts": opts, "via": "main-multidoc"}
+            if any(mo.get("oom") for mo in mos):
+                stats["skipped"] += 1
+                continue
+            argv = ["yaml-paths", "--nostdin", "--pathsep=" + ("/" if opts["fslash"] else "."),
+                    {"values": "--ignorekeynames", "keys": "--keynames", "keysonly": "--onlykeynames"}[opts["km"]],
+                    {"anchorsonly": "--anchorsonly", "keyaliases": "--allowkeyaliases", "valuealiases": "--allowvaluealiases",
+                     "allaliases": "--allowaliases"}[opts["am"]]]
+            if opts["sa"]:
+                argv.append("--refnames")
+            if opts["expand"]:
+                argv.append("--expand")
+            argv += ["--search", p_["expr"], p_["fn"]]
+            out = io.StringIO()
+            old = sys.argv
+
+            def go():
+                sys.argv = argv
+                try:
+                    with contextlib.redirect_stdout(out), contextlib.redirect_stderr(io.StringIO()):
+                        yp.main()
+                except SystemExit as e:
+                    return e.code
+                finally:
+                    sys.argv = old
+                return 0
+            st, val = sg.guarded(go, 30.0)
+            stats["n"] += 1
+            stats["docs"] += len(mos)
+            if st != "ok":
+                what = "timeout" if st == "timeout" else core.exc_class(val)
+                viol.append(("main-crash:%s" % what, "yaml-paths %s on a %d-document stream ended with %s" % (
+                    argv[1:-1], len(mos), what), case))
+                continue
+            if val not in (0, None):
+                viol.append(("main-exit:%s" % val, "yaml-paths %s on a %d-document stream exited %s" % (argv[1:-1], len(mos), val), case))
+                continue
+            lines = out.getvalue().split("\n")
+            if lines and lines[-1] == "":
+                lines.pop()
+            per_doc = [[] for _ in mos]
+            stray = []
+            for ln in lines:
+                for di in range(len(mos)):
+                    pre = "%s/%d: " % (p_["fn"], di)
+                    if ln.startswith(pre):
+                        per_doc[di].append(ln[len(pre):])
+                        break
+                else:
+                    stray.append(ln)
+            want = [mo["dedup"] for mo in mos]
+            if stray or per_doc != want:
+                bad = [di for di in range(len(mos)) if per_doc[di] != want[di]]
+                viol.append(("main-multidoc:%s" % opt_sig(opts),
+                             "yaml-paths %s on a %d-document stream: printed per document %r; the specification demands %r "
+                             "(documents %s differ%s)" % (argv[1:-1], len(mos), per_doc, want, bad,
+                                                          "; lines of no document: %r" % stray if stray else ""), case))
+                continue
+            if any(want):
+                stats["nonempty"] += 1
+            if any(set(want[a]) & set(want[b]) for a in range(len(want)) for b in range(a)):
+                stats["shared"] += 1      # some path text is demanded for two documents of the stream
+    return stats, viol[:20], disag[:20]
+
+
+# --------------------------------------------------------------------------- expressions with backslash escapes
+
+ESC_WORDS = ["hello", "world", "a", "b", "it", "s", "alpha"]
+ESC_SPECIALS = [" ", "[", "]", "'", '"', "\\"]
+ESC_OPS = {"=": lambda t, v: v == t, "^": lambda t, v: v.startswith(t), "$": lambda t, v: v.endswith(t),
+           "%": lambda t, v: t in v}
+
+
+def esc_term(rng):
+    """a term holding at least one symbol that has to be written with a backslash in an expression"""
+    n = rng.choice([1, 2, 2, 3])
+    parts = []
+    for i in range(n):
+        if rng.random() < 0.85:
+            parts.append(rng.choice(ESC_WORDS))
+        if i < n - 1 or not parts or rng.random() < 0.3:
+            parts.append(rng.choice(ESC_SPECIALS))
+    if not any(x in ESC_SPECIALS for x in parts):
+        parts.insert(rng.randint(0, len(parts)), rng.choice(ESC_SPECIALS))
+    t = "".join(parts)
+    if t[0] in "'\"" and t[-1] == t[0]:
+        # the path parser removes a pair of quotes wrapped around a search term even when they are written with
+        # backslashes (yamlpath.py "Undemarcate the search term"): what such an expression means is the parser's
+        # matter (C14), not the search's
+        t += rng.choice(ESC_WORDS)
+    return t
+
+
+def esc_written(t):
+    return "".join("\\" + c if c in ESC_SPECIALS else c for c in t)
+
+
+def escape_chunk(job):
+    """job: [(term text, operator character, inverted, fslash, through main())].  The expression is the operator
+    followed by the term with every space / bracket / quote / backslash written as backslash + symbol.  Judged
+    directly, by Python's own ==, startswith, endswith, in: over a document holding the term text, the text with the
+    symbols left out, the WRITTEN form (backslashes kept) and prefixed / suffixed variants, exactly the values
+    satisfying the expression are reported, each once, and each printed path resolves to its value."""
+    from yamlpath.commands import yaml_paths as yp
+    from yamlpath.common import Parsers
+    from yamlpath.enums import PathSeparators
+    from yamlpath.eyaml import EYAMLProcessor
+    log = core.quiet_logger()
+    stats = {"n": 0, "nonempty": 0, "main": 0}
+    viol = []
+    with tempfile.TemporaryDirectory(prefix="ypv-c07-") as td:
+        for (t, op, inv, fslash, via_main) in job:
+            stats["n"] += 1
+            written = esc_written(t)
+            expr = ("!" if inv else "") + op + written
+            bare = "".join(c for c in t if c not in ESC_SPECIALS)
+            values = [t, bare or "zz", written, t + "x", "x" + t, "zz", t + t]
+            asmap = (len(t) % 2 == 0)
+            src = (sg.M(*[("k%d" % i, sg.S(v)) for i, v in enumerate(values)]) if asmap
+                   else sg.L(*[sg.S(v) for v in values]))
+            root = sg.build(src)
+            case = {"kind": "escaped", "t": t, "op": op, "inv": inv, "fslash": fslash, "main": via_main,
+                    "expression": expr, "doc": src}
+            st, terms = sg.guarded(lambda: yp.get_search_term(log, expr), 5.0)
+            if st != "ok" or terms is None:
+                viol.append(("escaped-term:rejected", "get_search_term(%r) gives no search term (%s)" % (
+                    expr, "None" if st == "ok" else st if st == "timeout" else core.exc_class(terms)), case))
+                continue
+            sep = PathSeparators.FSLASH if fslash else PathSeparators.DOT
+            got = []
+
+            def go():
+                proc = EYAMLProcessor(log, root)
+                for p_ in yp.search_for_paths(log, proc, root, terms, sep, search_values=True, search_keys=False):
+                    got.append(str(p_))
+                return True
+            st, val = sg.guarded(go)
+            if st != "ok":
+                viol.append(("escaped-term:crash:%s" % ("timeout" if st == "timeout" else core.exc_class(val)),
+                             "search for %r did not finish normally" % expr, case))
+                continue
+            want_idx = [i for i, v in enumerate(values) if ESC_OPS[op](t, v) != inv]
+            want = {sg.key_of_addr(root, [["k", "k%d" % i] if asmap else ["i", i]]): i for i in want_idx}
+            hit, bad = {}, None
+            for p_ in got:
+                res = sg.resolve(root, p_)
+                if res[0] != "ok" or len(res[1]) != 1:
+                    bad = ("escaped-term:unresolved", "printed path %r of the search %r does not resolve to one node (%s)" % (
+                        p_, expr, res[:2]))
+                    break
+                hit[res[1][0]] = hit.get(res[1][0], 0) + 1
+            if bad is None:
+                extra = [k for k in hit if k not in want]
+                missing = sorted(i for k, i in want.items() if k not in hit)
+                if missing:
+                    bad = ("escaped-term:missing", "the expression %r (term text %r) is satisfied by the value(s) %r but no path is "
+                           "reported for them; printed %r" % (expr, t, [values[i] for i in missing], got))
+                elif extra:
+                    bad = ("escaped-term:extra", "the expression %r (term text %r) reports %r, among them values that do not "
+                           "satisfy it; satisfied only by %r" % (expr, t, got, [values[i] for i in want_idx]))
+                elif any(c > 1 for c in hit.values()):
+                    bad = ("escaped-term:duplicate", "the expression %r reports a value more than once: %r" % (expr, got))
+            if bad:
+                viol.append((bad[0], bad[1], case))
+                continue
+            if got:
+                stats["nonempty"] += 1
+            if via_main:
+                fn = os.path.join(td, "e.yaml")
+                try:
+                    with open(fn, "w", encoding="utf-8") as fh:
+                        Parsers.get_yaml_editor().dump(root, fh)
+                    (data, ok) = Parsers.get_yaml_data(Parsers.get_yaml_editor(), log, fn)
+                    same = ok and [str(x) for x in (data.values() if asmap else data)] == values
+                except Exception:
+                    same = False
+                if not same:
+                    continue
+                argv = ["yaml-paths", "--nostdin", "--nofile", "--pathsep=" + ("/" if fslash else "."), "--search", expr, fn]
+                out = io.StringIO()
+                old = sys.argv
+
+                def run_main():
+                    sys.argv = argv
+                    try:
+                        with contextlib.redirect_stdout(out), contextlib.redirect_stderr(io.StringIO()):
+                            yp.main()
+                    except SystemExit as e:
+                        return e.code
+                    finally:
+                        sys.argv = old
+                    return 0
+                st, val = sg.guarded(run_main, 20.0)
+                stats["main"] += 1
+                lines = out.getvalue().split("\n")
+                if lines and lines[-1] == "":
+                    lines.pop()
+                if st != "ok" or val not in (0, None) or lines != got:
+                    viol.append(("escaped-term:main", "yaml-paths --search %r printed %r (exit %s); the values satisfying the "
+                                 "expression are at %r" % (expr, lines, val if st == "ok" else st, got), case))
+    return stats, viol[:20], []
+
+
 # --------------------------------------------------------------------------- entry points
 
 def _dispatch(job):
@@ -444,6 +719,10 @@ def _dispatch(job):
         return ("search", run_chunk(payload))
     if kind == "term":
         return ("term", term_chunk(payload))
+    if kind == "multi":
+        return ("multi", multi_chunk(payload))
+    if kind == "escaped":
+        return ("escaped", escape_chunk(payload))
     return ("main", main_chunk(payload))
 
 
@@ -495,6 +774,27 @@ def build_jobs(chk, tier):
         m, t = rng.choice(TERM_GRID)
         mains.append((d, {"inv": rng.random() < 0.25, "m": m, "term": t}, rng.choice(opts)))
     jobs += [("main", c) for c in core.chunked(mains, 8)]
+    # multi-document streams through main(); search expressions with backslash escapes (own random stream, so that the
+    # cases above stay those of earlier versions of this check)
+    rng2 = random.Random(chk.seed * 13 + 5)
+    multis = []
+    for _ in range(480 if tier == "quick" else 4000):
+        first = rng2.choice(cat) if rng2.random() < 0.35 else sg.gen_doc(rng2, depth=rng2.choice([2, 3]), odd=0.03)
+        srcs = [first]
+        for _n in range(rng2.choice([1, 1, 2])):
+            r = rng2.random()
+            srcs.append(first if r < 0.45 else rng2.choice(cat) if r < 0.6 else sg.gen_doc(rng2, depth=rng2.choice([2, 3]), odd=0.03))
+        if rng2.random() < 0.3:
+            rng2.shuffle(srcs)
+        m, t = rng2.choice(TERM_GRID)
+        multis.append((srcs, {"inv": rng2.random() < 0.25, "m": m, "term": t}, rng2.choice(opts)))
+    jobs += [("multi", c) for c in core.chunked(multis, 16)]
+    esc = [("hello world", "=", False, False, True), ("hello world", "=", False, True, True), (" ", "%", False, False, True),
+           ("0]", "$", False, False, True), ("[", "%", False, True, True), ("it's", "=", False, False, True),
+           ("\\", "%", False, False, True), ("alpha ", "^", False, True, True), ('say "a"', "=", True, False, True)]
+    for i in range(700 if tier == "quick" else 8000):
+        esc.append((esc_term(rng2), rng2.choice(sorted(ESC_OPS)), rng2.random() < 0.25, rng2.random() < 0.5, i % 4 == 0))
+    jobs += [("escaped", c) for c in core.chunked(esc, 16)]
     return jobs
 
 
@@ -541,6 +841,10 @@ def run(chk: core.Check, tier=None):
             jobs = [("term", [c["x"]])]
         elif c.get("via") == "main":
             jobs = [("main", [(c["doc"], c["term"], c["opts"])])]
+        elif c.get("via") == "main-multidoc":
+            jobs = [("multi", [(c["docs"], c["term"], c["opts"])])]
+        elif c.get("kind") == "escaped":
+            jobs = [("escaped", [(c["t"], c["op"], c["inv"], c["fslash"], c["main"])])]
         else:
             jobs = [("search", [(c["doc"], [(c["term"], c["opts"])])])]
         results = [_dispatch(j) for j in jobs]
@@ -568,6 +872,20 @@ def run(chk: core.Check, tier=None):
             chk.count("get_search_term:cases", stats["n"])
             chk.count("get_search_term:accepted", stats["some"])
             chk.count("get_search_term:crash(model agrees)", stats.get("crash", 0))
+        elif kind == "multi":
+            stats, viol, disag = res
+            chk.evaluations += stats["n"]
+            chk.count("multidoc:streams", stats["n"])
+            chk.count("multidoc:documents", stats["docs"])
+            chk.count("multidoc:nonempty", stats["nonempty"])
+            chk.count("multidoc:same-path-in-two-documents", stats["shared"])
+            chk.count("multidoc:skipped", stats["skipped"])
+        elif kind == "escaped":
+            stats, viol, disag = res
+            chk.evaluations += stats["n"]
+            chk.count("escaped-expression:cases", stats["n"])
+            chk.count("escaped-expression:nonempty", stats["nonempty"])
+            chk.count("escaped-expression:through-main", stats["main"])
         else:
             stats, viol, disag = res
             chk.evaluations += stats["n"]
